@@ -1,11 +1,11 @@
 // ad-hoc probe (not used by any check)
 use qrlew::{relation::Relation, sql::{parse, relation::QueryWithRelations}};
 fn main() {
-    let rels = qvh::s_hier::world();
+    let rels = qvh::s_rules::world();
     for sql in std::env::args().skip(1) {
         let q = parse(&sql).unwrap();
         match std::panic::catch_unwind(std::panic::AssertUnwindSafe(|| Relation::try_from(QueryWithRelations::new(&q, &rels)))) {
-            Ok(Ok(r)) => println!("{sql}\n{}\n", r),
+            Ok(Ok(r)) => println!("OK {sql}\n"),
             Ok(Err(e)) => println!("{sql}\nERR {e}\n"),
             Err(_) => println!("{sql}\nPANIC\n"),
         }
